@@ -378,6 +378,11 @@ func replayCmd(id, path string) int {
 		fmt.Printf("VIOLATION property=%s replay=%s\n", id, abs)
 		return 1
 	}
+	if res.exit != 0 || res.timedOut {
+		// ran, no violation reported, yet the process did not end cleanly: a harness error, a timeout, a race report
+		fmt.Printf("INCONCLUSIVE: replay of %s ended with exit status %d (timed out: %v) without reporting a violation\n%s\n", path, res.exit, res.timedOut, tail(res.out, 2000))
+		return 2
+	}
 	fmt.Printf("replay OK: property=%s %s\n", id, path)
 	return 0
 }
@@ -461,6 +466,10 @@ func run(id, tier string) int {
 			sem <- struct{}{}
 			defer func() { <-sem }()
 			v, sig, detail, ran, res := replayOne(bin, p, c.MemLimitMB)
+			if !v && (res.exit != 0 || res.timedOut) {
+				// no verdict (harness error under load, timeout): one more attempt before the case counts as undecided
+				v, sig, detail, ran, res = replayOne(bin, p, c.MemLimitMB)
+			}
 			results[i] = rres{p, v, ran, sig, detail, res}
 		}(i, p)
 	}
@@ -474,6 +483,11 @@ func run(id, tier string) int {
 			continue
 		}
 		regressionRan++
+		if !r.violated && (r.res.exit != 0 || r.res.timedOut) {
+			// the replay ran but ended in a harness error / timeout: nothing was decided for this saved case
+			inconclusive = fmt.Sprintf("replay of %s ended with exit status %d without a verdict: %s", r.path, r.res.exit, tail(r.res.out, 600))
+			continue
+		}
 		if k, isKnown := knownReplays[r.path]; isKnown {
 			if r.violated {
 				knownLines = append(knownLines, fmt.Sprintf("KNOWN-FINDING: property=%s %s [sig=%s replay=%s]", id, k.What, k.Signature, k.Replay))
